@@ -498,6 +498,13 @@ def run_asgi(prefix, kind, n_items, raise_at, gate_sends, slow_close, with_disco
                 await env.gate("recv-wait")
             if obs["disc_processed_at"] is None:
                 obs["disc_processed_at"] = len(obs["sent"])
+            # from now on every call is answered at once with the same event (an event that stays set). A caller that keeps asking
+            # without ever suspending would hold the loop for good: after 1000 answers in a row the driver notes it and lets this
+            # call wait, so that the execution can be judged
+            obs["disc_answers"] = obs.get("disc_answers", 0) + 1
+            if obs["disc_answers"] >= 1000:
+                obs["spins"] = True
+                await env.gate("zz-never")
             return {"type": "http.disconnect"}
 
         nsend = [0]
@@ -527,7 +534,7 @@ def run_asgi(prefix, kind, n_items, raise_at, gate_sends, slow_close, with_disco
             if loop._ready:
                 opts.append(("run", None))
             for name in env.names():
-                if name in ("recv-wait", "zz-idle"):
+                if name in ("recv-wait", "zz-idle", "zz-never"):
                     continue
                 opts.append(("env", name))
             if with_disconnect and not srv["gone"]:
@@ -627,6 +634,10 @@ def run_asgi_shared(prefix, kind, n_items=2):
                 if k == 0:
                     if not gone[0]:
                         await env.gate("recv-wait0")
+                    obs["disc_answers"] = obs.get("disc_answers", 0) + 1
+                    if obs["disc_answers"] >= 1000:  # (see run_asgi: a caller that keeps asking without suspending)
+                        obs["spins"] = True
+                        await env.gate("zz-never")
                     return {"type": "http.disconnect"}
                 await env.gate("zz-never")
                 return {"type": "http.disconnect"}
@@ -694,6 +705,8 @@ def run_asgi_shared(prefix, kind, n_items=2):
 
 def judge_asgi_shared(o, kind):
     p = []
+    if o.get("spins"):
+        return [f"SPINS: after the disconnect was reported, receive() was called 1000 times in a row without the caller ever suspending: the loop is held; trace {o['trace'][-8:]}"]
     if o["stuck"] == "horizon":
         return [f"STUCK (horizon): trace tail {o['trace'][-8:]}"]
     if o["post_disc_steps"] > (1 if kind == "stream" else 2):
@@ -703,6 +716,8 @@ def judge_asgi_shared(o, kind):
 
 def judge_asgi(o, kind, n_items, raise_at, with_disconnect, slow_close, empty_at=None, producer="agen", send_fail_at=None, unencodable_at=None):
     p = []
+    if o.get("spins"):
+        return [f"SPINS: after the disconnect was reported, receive() was called 1000 times in a row without the caller ever suspending (a server answers each of these calls at once): the loop is held, the response never returns; trace {o['trace'][-8:]}"]
     if unencodable_at is not None:
         # the response fails while it writes an event (its own error, neither the producer's nor the client's): however it ends,
         # nothing stays pending and the producer is closed once
